@@ -71,7 +71,13 @@ UNIT = dict(
                        ("", "self.offset + in_block_offset + size <= 0x7fff_ffff_ffff")],
              ensures=[("C04:zero_range_zeroes_exactly_the_requested_range_of_this_block",
                        "final(sys).files@ == old(sys).files@.insert(self.mmap.file, write_at(old(sys).files@[self.mmap.file], self.offset + in_block_offset, Seq::new(size as nat, |i: int| 0u8)))"),
-                      ("C04:zero_range_always_ok", "ret is Ok")]),
+                      ("C04:zero_range_always_ok", "ret is Ok")],
+             hints=[dict(before="            return Ok(());", text="""            proof {
+                let d = sys.files@[self.mmap.file];
+                assert(write_at(d, self.offset + in_block_offset, Seq::new(0nat, |i: int| 0u8)) =~= d);
+                assert(sys.files@.insert(self.mmap.file, d) =~= sys.files@);
+            }"""),
+                    dict(before="        Ok(())\n    }", text="        proof { assert(zeros@ =~= Seq::new(size as nat, |i: int| 0u8)); }")]),
         dict(kind="model", file="block_rw_theorem.rs"),
     ],
 )
